@@ -160,8 +160,8 @@ func initConverter(loader *pkgload.PackageLoader, rawConverter *RawConverter) (*
 
 	c.ConverterConfig = DefaultConfigVariables
 	c.OutputFile = defaultOutputFile(rawConverter.FileName)
-	c.OutputPackageName = rawConverter.PackageName
-	c.OutputPackagePath = rawConverter.PackagePath
+	// The output package is resolved from the location of the output file (see
+	// resolveOutputPackage): by default that is the package of the variables.
 	return c, nil
 }
 
